@@ -706,7 +706,11 @@ class Resolver:
             return False
         return all(self.owned_by(g, roots, _seen) for g, _c in sites)
 
-    def _local_from_registry(self, name, finfo):
+    def _local_from_registry(self, name, finfo, _seen=None):
+        _seen = _seen if _seen is not None else set()
+        if name in _seen:
+            return False
+        _seen.add(name)
         for n in walk_no_nested(finfo.node):
             if isinstance(n, ast.Assign):
                 tgt_names = set()
@@ -725,6 +729,10 @@ class Resolver:
                                     isinstance(x, ast.Call) and isinstance(x.func, (ast.Name, ast.Attribute))
                                     and self.index.canon(x.func, callee.module) == "gwf.backends.base.discover_backends" for x in walk_no_nested(callee.node)):
                                 return True  # e.g. factory = _load_backend_factory(name)
+                    # taken out of a local that itself holds the registry: backends = discover_backends(); cls, _ = backends[name]
+                    for x in ast.walk(n.value):
+                        if isinstance(x, ast.Name) and x.id != name and self._local_from_registry(x.id, finfo, _seen):
+                            return True
         return False
 
     # ------------------------------------------------------------------ primitive effects of one node
@@ -749,7 +757,7 @@ class Resolver:
                 out.append(Effect("PROMPT", canon, n, finfo))
             elif canon and canon.startswith(PROC_PREFIXES):
                 out.append(Effect("PROC", canon, n, finfo))
-            elif canon == "gwf.backends.utils.call":
+            elif canon == "gwf.backends.utils.call" or canon in idx.command_runners():
                 exe = self._first_arg_const(n, finfo)
                 out.append(Effect(SCHED_CLASS.get(exe, "SCHED_UNKNOWN"), str(exe), n, finfo))
             elif canon is None and attr is not None:
@@ -828,13 +836,37 @@ class Resolver:
                     return v[0]
             except CantEval:
                 pass
-            # call(*cmd): look at the list literal assigned to cmd in this function
+            # call(*cmd): look at the list literal assigned to cmd in this function (`[exe, ...]`, `[exe, ...] + ids`, `list((exe, ...))`)
+            def head(e):
+                if isinstance(e, (ast.List, ast.Tuple)) and e.elts:
+                    if isinstance(e.elts[0], ast.Constant):
+                        return e.elts[0].value
+                    try:
+                        return self.ev.eval(e.elts[0], call._module)
+                    except CantEval:
+                        return None
+                if isinstance(e, ast.BinOp) and isinstance(e.op, ast.Add):
+                    return head(e.left)
+                if isinstance(e, ast.Call) and isinstance(e.func, ast.Name) and e.func.id in ("list", "tuple") and len(e.args) == 1:
+                    return head(e.args[0])
+                try:
+                    v_ = self.ev.eval(e, call._module)
+                    if isinstance(v_, (list, tuple)) and v_ and isinstance(v_[0], str):
+                        return v_[0]
+                except CantEval:
+                    pass
+                return None
             if isinstance(a.value, ast.Name) and finfo is not None:
-                for n in walk_no_nested(finfo.node):
-                    if isinstance(n, ast.Assign) and any(isinstance(t, ast.Name) and t.id == a.value.id for t in n.targets):
-                        if isinstance(n.value, (ast.List, ast.Tuple)) and n.value.elts and isinstance(n.value.elts[0], ast.Constant):
-                            return n.value.elts[0].value
-            return None
+                heads = [head(n.value) for n in walk_no_nested(finfo.node)
+                         if isinstance(n, ast.Assign) and any(isinstance(t, ast.Name) and t.id == a.value.id for t in n.targets)]
+                if heads and all(h is not None for h in heads):
+                    # several assignments: report the one that is not a pure read, if any
+                    for h in heads:
+                        if SCHED_CLASS.get(h, LOCAL_CLASS.get(h)) not in ("SCHED_READ", "LOCAL_READ"):
+                            return h
+                    return heads[0]
+                return None
+            return head(a.value)
         try:
             return self.ev.eval(a, call._module)
         except CantEval:
